@@ -6,6 +6,7 @@ package main
 // exact integer statements.
 
 import (
+	"fmt"
 	"go/types"
 	"math/big"
 )
@@ -65,4 +66,58 @@ func init() {
 		q, r := w.splitQuotient(num, y)
 		return Tuple{lowerInt(q, uk64), lowerInt(r, uk64)}
 	})
+}
+
+// fmt.Print / Println / Sprint / Sprintln: the real bodies decide spacing
+// with reflect.TypeOf, which is not interpretable. Operands are strings and
+// concrete integers/bools here (anything else is an engine error, not a guess).
+func (w *Worker) fmtOperands(args Value, ln bool) Str {
+	sl, _ := args.(Slice)
+	var out []Value
+	prevString := true
+	for i, a := range sl.v {
+		iv, ok := a.(Iface)
+		if !ok {
+			panic(engineError{"fmt.Print model: operand is not an interface value"})
+		}
+		var piece []Value
+		isString := false
+		switch v := iv.v.(type) {
+		case Str:
+			piece = w.cells(v).b
+			isString = true
+		case int64:
+			piece = mkStr(fmt.Sprint(v)).b
+		case bool:
+			piece = mkStr(fmt.Sprint(v)).b
+		case nil:
+			piece = mkStr("<nil>").b
+		default:
+			panic(engineError{fmt.Sprintf("fmt.Print model: operand of type %T", iv.v)})
+		}
+		if i > 0 && (ln || (!isString && !prevString)) {
+			out = append(out, int64(' '))
+		}
+		out = append(out, piece...)
+		prevString = isString
+	}
+	if ln {
+		out = append(out, int64('\n'))
+	}
+	return Str{b: out}
+}
+
+func init() {
+	reg("fmt.Print", func(fr *frame, a []Value) Value {
+		s := fr.w.fmtOperands(a[0], false)
+		fr.w.ghostOut(s)
+		return Tuple{int64(len(s.b)), Iface{}}
+	})
+	reg("fmt.Println", func(fr *frame, a []Value) Value {
+		s := fr.w.fmtOperands(a[0], true)
+		fr.w.ghostOut(s)
+		return Tuple{int64(len(s.b)), Iface{}}
+	})
+	reg("fmt.Sprint", func(fr *frame, a []Value) Value { return fr.w.fmtOperands(a[0], false) })
+	reg("fmt.Sprintln", func(fr *frame, a []Value) Value { return fr.w.fmtOperands(a[0], true) })
 }
